@@ -58,6 +58,18 @@ theorem token_positions (rules : Rules) (s : Str) :
   have h := withPos_slices s (scanWith rules s).2 (scanWith rules s).1 [] (by simpa using scan_consumes_all rules s)
   exact h t (by simpa [parseWith] using ht)
 
+/-- under the lexicon of the current source the scan never stops early: every one of the 26 rules
+    consumes at least one character and at every position some rule matches (OTHER, or WHITESPACE for a
+    newline), so the remainder returned by `parse_expression` is always empty -/
+theorem scan_remainder_empty (s : Str) : ∃ toks, Lexer.scan s = some (toks, []) ∧ Lexer.values toks = s := by
+  have hrem : (scanWith pinnedRules s).2 = [] := scanAux_rem_nil (s.length + 1) s (Nat.lt_succ_self _)
+  refine ⟨(scanWith pinnedRules s).1, ?_, ?_⟩
+  · simp only [Lexer.scan, active_rules_pinned, Option.map_some]
+    rw [← hrem]
+  · have := scan_consumes_all pinnedRules s
+    rw [hrem, List.append_nil] at this
+    exact this
+
 /-- anything containing a function-call / operator / reference token is dynamic (element types
     other than the hyphen types; for those see `hyphen_type_exception`) -/
 theorem dynamic_of_token (rules : Rules) (dflt ty : Str)
